@@ -47,13 +47,21 @@ fn cached_source(path: &PathBuf) -> Option<Arc<str>> {
     // Fast path: already cached.
     if let Ok(cache) = SOURCE_CACHE.read() {
         if let Some(content) = cache.get(path) {
+            #[cfg(assert_struct_verif)]
+            verif::log_cache("hit", path, Some(content));
             return Some(content.clone());
         }
     }
     // Slow path: read file and populate cache.
+    #[cfg(assert_struct_verif)]
+    verif::log_cache("miss", path, None);
     let content: Arc<str> = std::fs::read_to_string(path).ok()?.into();
+    #[cfg(assert_struct_verif)]
+    verif::log_cache("read", path, Some(&content));
     if let Ok(mut cache) = SOURCE_CACHE.write() {
         cache.entry(path.clone()).or_insert_with(|| content.clone());
+        #[cfg(assert_struct_verif)]
+        verif::log_cache("insert", path, cache.get(path));
     }
     Some(content)
 }
@@ -263,6 +271,8 @@ impl ErrorReport {
         actual: String,
         expected: Option<String>,
     ) {
+        #[cfg(assert_struct_verif)]
+        verif::log_push(self, error_node, &actual, &expected);
         self.errors.push(ErrorContext {
             actual_value: actual,
             expected_value: expected,
@@ -347,6 +357,8 @@ impl fmt::Display for ErrorReport {
                     let end =
                         byte_offset_of(source, error.error_node.line_end, error.error_node.col_end)
                             .max(start + 1);
+                    #[cfg(assert_struct_verif)]
+                    verif::log_span(start, end);
                     AnnotationKind::Primary
                         .span(start..end)
                         .label(label.as_str())
@@ -415,5 +427,114 @@ impl fmt::Display for PatternNode {
             NodeKind::Wildcard => write!(f, "_"),
             NodeKind::Closure { closure } => write!(f, "{}", closure),
         }
+    }
+}
+
+/// Verification hooks: read-only access to private helpers and event logs.
+/// Compiled only with `--cfg assert_struct_verif`; absent from normal builds.
+#[cfg(assert_struct_verif)]
+#[doc(hidden)]
+pub mod verif {
+    use super::*;
+    use std::cell::RefCell;
+    use std::sync::Mutex;
+
+    /// One `ErrorReport::push` call, as observed.
+    #[derive(Debug, Clone)]
+    pub struct PushEvent {
+        pub probe: bool,
+        pub node_addr: usize,
+        pub node_display: String,
+        pub loc: (u32, u32, u32, u32),
+        pub actual: String,
+        pub expected: Option<String>,
+    }
+
+    thread_local! {
+        static PUSHES: RefCell<Vec<PushEvent>> = const { RefCell::new(Vec::new()) };
+        static SPANS: RefCell<Vec<(usize, usize)>> = const { RefCell::new(Vec::new()) };
+    }
+    static CACHE_LOG: Mutex<Vec<(String, String, String, Option<String>)>> = Mutex::new(Vec::new());
+
+    pub(super) fn log_push(
+        report: &ErrorReport,
+        node: &'static PatternNode,
+        actual: &str,
+        expected: &Option<String>,
+    ) {
+        let ev = PushEvent {
+            probe: report.rel_path.is_empty() && report.abs_path.as_os_str().is_empty(),
+            node_addr: node as *const PatternNode as usize,
+            node_display: node.to_string(),
+            loc: (node.line_start, node.col_start, node.line_end, node.col_end),
+            actual: actual.to_string(),
+            expected: expected.clone(),
+        };
+        PUSHES.with(|p| p.borrow_mut().push(ev));
+    }
+
+    pub(super) fn log_span(start: usize, end: usize) {
+        SPANS.with(|s| s.borrow_mut().push((start, end)));
+    }
+
+    pub(super) fn log_cache(what: &str, path: &PathBuf, content: Option<&Arc<str>>) {
+        let tid = format!("{:?}", std::thread::current().id());
+        if let Ok(mut log) = CACHE_LOG.lock() {
+            log.push((
+                tid,
+                what.to_string(),
+                path.display().to_string(),
+                content.map(|c| c.to_string()),
+            ));
+        }
+    }
+
+    pub fn take_pushes() -> Vec<PushEvent> {
+        PUSHES.with(|p| std::mem::take(&mut *p.borrow_mut()))
+    }
+
+    pub fn take_spans() -> Vec<(usize, usize)> {
+        SPANS.with(|s| std::mem::take(&mut *s.borrow_mut()))
+    }
+
+    pub fn take_cache_log() -> Vec<(String, String, String, Option<String>)> {
+        CACHE_LOG
+            .lock()
+            .map(|mut l| std::mem::take(&mut *l))
+            .unwrap_or_default()
+    }
+
+    pub fn clear_source_cache() {
+        if let Ok(mut cache) = SOURCE_CACHE.write() {
+            cache.clear();
+        }
+    }
+
+    pub fn byte_offset_of(source: &str, line: u32, col: u32) -> usize {
+        super::byte_offset_of(source, line, col)
+    }
+
+    pub fn absolute_source_path(manifest_dir: &str, file_path: &str) -> PathBuf {
+        super::absolute_source_path(manifest_dir, file_path)
+    }
+
+    pub fn error_label(
+        node: &'static PatternNode,
+        actual: String,
+        expected: Option<String>,
+    ) -> String {
+        super::error_label(&ErrorContext {
+            actual_value: actual,
+            expected_value: expected,
+            error_node: node,
+        })
+    }
+
+    pub fn plain_output_flag() -> bool {
+        PLAIN_OUTPUT.with(|c| c.get())
+    }
+
+    pub fn report_paths(report: &ErrorReport) -> (PathBuf, String) {
+        (report.abs_path.clone(), report.rel_path.clone())
     }
 }
